@@ -204,6 +204,10 @@ def run(prop, tier, seed):
                            first_events=[_short(e) for e in tr["events"][:5]],
                            last_event=_short(tr["events"][-1])))
     ck.cov["by_catch_other_clauses"] = bycatch
+    if prop == "C01":
+        # the stopping values path() REPORTS are certificates too: stop_crits[t] <= tol must certify coefs[..., t] for
+        # alphas[t] (every path is a sequence of warm-started solves: "every starting point")
+        _path_certificates(ck, seed)
     if prop == "C17":
         # last sentence of C17: an estimator's n_iter_ is the number of outer iterations of the solve inside fit()
         from . import niter
@@ -219,6 +223,64 @@ def run(prop, tier, seed):
             print(f"DRIFT: MicroCD exact replay disagrees with the real AndersonCD on {nd} problem(s) "
                   "(see evidence coverage.binding) -- the exact design model no longer describes the code")
     return ck.finish()
+
+
+def _path_certificates(ck, seed):
+    from . import warm
+    from .. import rel
+    hists = [h for h in warm.SENTINEL_HISTORIES if h["entry"].endswith(".path")]
+    items = [(h, seed, 500 + i) for i, h in enumerate(hists)]
+    res, errs = pool.map_grouped("harness.checks.warm", "run_history", items, key=lambda it: it[0]["entry"], chunk=4)
+    for it, msg, tb in errs:
+        ck.machinery(f"path history driver failed on {it[0] if it else None}: {msg}\n{tb}")
+    if errs:
+        return
+    pfacts = [t["_facts"] for r_ in res for t in r_ if "_facts" in t]
+    traces = [t for r_ in res for t in r_ if "_facts" not in t]
+    try:
+        v = monitor.validate(traces)
+        vp = rel.judge(pfacts) if pfacts else None
+    except tlc.TLCError as e:
+        ck.machinery(str(e)[:2000])
+        return
+    ck.add_verdicts(v)
+    for tr in traces:
+        names = {c for c, _ in v.bad(tr["id"])} & {"cert", "cert_outer"}
+        meta = tr["meta"]
+        if str(meta.get("driver_exc") or "").startswith("HARNESS-BUG"):
+            ck.machinery(f"path history driver bug: {meta['driver_exc']}")
+        ck.cov["traces_validated_against_impl"] += 1
+        for c in ("cert", "cert_outer"):
+            ck.clause(c, c not in names)
+        for c in sorted(names):
+            pos = {cc: p for cc, p in v.bad(tr["id"])}[c]
+            m2 = dict({k: meta.get(k) for k in meta if k != "hist"}, clause=c, via="path")
+            m2.update(_explain(tr, pos, c))
+            ck.violation(c, m2, dict(kind="warm_history", replay_module="harness.checks.warm", property="C01", clause=c,
+                                     history=dict(entry=meta.get("entry"), fit_intercept=meta.get("fit_intercept"),
+                                                  hist=meta.get("hist")), scenario=None, seed=meta.get("seed", seed),
+                                     hid=meta.get("hid"), step=meta.get("step"), event=_ev(tr, pos)))
+    if vp is not None:
+        ck.add_verdicts(vp)
+        mine = {"path_cert", "path_coefs_are_the_step_solutions", "path_len"}
+        for t in pfacts:
+            names = {c for c, _ in vp.bad(t["id"])} & mine
+            meta = t["meta"]
+            ck.count("path:" + json.dumps({k: meta.get(k) for k in ("entry", "fit_intercept", "hist")}, sort_keys=True,
+                                          default=str), True)
+            ck.cov["traces_validated_against_impl"] += 1
+            for e in t["events"]:
+                if e["when"] and e["c"] in mine:
+                    ck.clause(e["c"], e["c"] not in names)
+            for c in sorted(names):
+                ck.violation(c, dict({k: meta.get(k) for k in ("entry", "fit_intercept", "storage", "hid", "seed")},
+                                     clause=c, hist=meta.get("hist"), via="path"),
+                             dict(kind="warm_history", replay_module="harness.checks.warm", property="C01", clause=c,
+                                  history=dict(entry=meta.get("entry"), fit_intercept=meta.get("fit_intercept"),
+                                               hist=meta.get("hist")), scenario=None, seed=meta.get("seed", seed),
+                                  hid=meta.get("hid"), step=None, event=None))
+    ck.cov["binding"].append(dict(check="certificates reported by path(): every step traced, stop_crits[t] against "
+                                        "coefs[..., t] for alphas[t]", histories=len(hists)))
 
 
 def _explain(tr, pos, clause):
